@@ -529,6 +529,10 @@ impl State {
                         push_val(v, class, "upvalue-target", &mut seen, &mut work);
                     } else if !u.location.is_null() {
                         self.c.dangling_open_upvalue += 1;
+                        if std::env::var_os("CAOSIM_DEBUG").is_some() {
+                            let slot = (loc as isize - stack_lo as isize) / std::mem::size_of::<Value>() as isize;
+                            eprintln!("dangling upvalue obj#{:?} class={} slot={} stack_len={}", self.obj_ordinal.get(&p), class, slot, view.value_stack.len());
+                        }
                     }
                 }
                 _ => {}
@@ -729,17 +733,23 @@ impl Controller for Installed {
             // unreachable objects must have been reclaimed: survivors are a subset of what was
             // possibly reachable (roots incl. guards/host args) before the sweep
             let mut unreclaimed = 0u64;
+            let mut kinds: BTreeMap<&'static str, u64> = BTreeMap::new();
             for p in view.object_list.iter() {
                 let k = p.as_ptr() as usize;
                 if !s.pre_gc_possible.contains(&k) {
                     unreclaimed += 1;
+                    *kinds.entry(kind_of(unsafe { p.as_ref() })).or_insert(0) += 1;
+                    if std::env::var_os("CAOSIM_DEBUG").is_some() {
+                        let o = unsafe { p.as_ref() };
+                        eprintln!("unreclaimed obj#{:?} {} marker={:?} gc#{} site={} guards={:?}", s.obj_ordinal.get(&k), kind_of(o), o.marker, s.c.gcs, s.site(), s.guards.len());
+                    }
                 }
             }
             if unreclaimed > 0 {
                 s.finding(
                     "garbage-not-reclaimed",
                     json!({"inv": "unreachable-objects-reclaimed"}),
-                    format!("{unreclaimed} object(s) unreachable from every root survived a collection"),
+                    format!("{unreclaimed} object(s) unreachable from every root survived a collection ({kinds:?})"),
                 );
             }
             s.audit(&view, "immediately after the collection");
